@@ -58,11 +58,19 @@ def lift(x):
     raise TraceAbort(f"cannot lift {type(x)} into a symbolic value")
 
 
+def _liftable(x):
+    return x is None or isinstance(x, (Sym, bool, int, float, numpy.bool_, numpy.integer, numpy.floating))
+
+
 def _bin(name):
     def f(a, b):
+        if not _liftable(b):
+            return NotImplemented      # e.g. number * vector: defer to the vector's reflected operator
         return Sym(name, lift(a), lift(b))
 
     def r(a, b):
+        if not _liftable(b):
+            return NotImplemented
         return Sym(name, lift(b), lift(a))
 
     return f, r
